@@ -53,7 +53,7 @@ add("C13", "mb2-check+sandbox+fuzz", "bounded-exhaustive + property-based testin
     "Sequences of searches in one process, look-alike decoys (big-endian header, other magics), and every buffer length around 0 and around the 8192 window with magics planted at every boundary position and stored lengths at/over the end, plus generated buffers to 16 KiB, optionally starting with an ELF/PE/a.out file identification, compared with the reference search by address and length.",
     "any Err variant is accepted where the statement says 'an error'", "DESIGN.md §4 C13")
 add("C15", "mb2-check+sandbox", "bounded-exhaustive enumeration over a family of user-defined tag types and all built-in kinds",
-    "34 harness-defined sized/DST tag types x every tag size 8..=96 through get_tag, cast on the iterated tag, and ref_from_slice over the tag plus slack bytes followed by cast, and all 22 built-in kinds x sizes, checking address, size_of_val and aliasing or a panic; exact fits must be accepted.",
+    "34 harness-defined sized/DST tag types x every tag size 8..=96 through get_tag (also after lookups with other view types of the same ID), cast on the iterated tag, ref_from_slice over the tag plus slack bytes and ref_from_ptr followed by cast, a tag that claims more than the region holds, and all 22 built-in kinds x sizes, checking address, size_of_val and aliasing or a panic; exact fits must be accepted.",
     "the family's BASE_SIZE/dst_len are truthful by construction", "DESIGN.md §4 C15")
 add("C16", "mb2-check+fuzz", "bounded-exhaustive + property-based testing under a recording global allocator; coverage-guided fuzzing (libFuzzer + ASan) of constructions against the independent encoder",
     "Every composition of content length 0..=12 into 0..=4 slices x 13 targets (6 generic structures, 7 tag kinds with a sized part) and generated larger ones up to ~64 KiB: one allocation of the exact layout, exact byte layout, one matching deallocation, clone identity; clone_dyn of all 11 DST kinds at content lengths 0..=40.",
